@@ -60,7 +60,7 @@ def run_case(case, workdir=None):
     if k == "relex":
         return call(["relex"])
     if k == "caret":
-        return call(["caret", case["op"], case["line"], case["pos"], case["offset"]])
+        return call(["caret", case["op"]] + list(case["values"]))
     return None, "unknown case kind " + k
 
 
@@ -77,4 +77,9 @@ def run(path):
         return 1
     rc, out = run_case(r["case"])
     print("replay of the concrete case on the real code (rc=%s):\n%s" % (rc, out))
+    exp = r["case"].get("expected")
+    if exp is not None:
+        ok = exp in (out or "")
+        print("contract expects: %s -> %s" % (exp, "real code agrees (not reproduced)" if ok else "VIOLATION REPRODUCED on the real code"))
+        return 0 if ok else 1
     return 1 if rc != 0 else 0
